@@ -439,6 +439,11 @@ def oracle(c):
     if o is None:
         return f"building / updating the model raised {c.get('raised')}"
     if c.get("nonfinite"):
+        # the generator only produces programs whose joint log-density is finite (independent evaluation)
+        bad = [n["name"] for n in o["nodes"] if n["obs"] is None] + [f"user_{w}" for w, e in o["user"].items() if e is None]
+        if all(math.isfinite(v) for v in ex["nodes"].values()):
+            return (f"non-finite log-density at {bad} although the independent evaluation of the program is finite "
+                    f"(per node: {ex['nodes']})")
         return None
     f32 = c["prog"]["f32"]
     tol = EPS_O[f32] * (1 + ex["abs"])
